@@ -1112,7 +1112,7 @@ func (s *SecureChannel) sendAsyncWithTimeout(
 	authToken *ua.NodeID,
 	respRequired bool,
 	timeout time.Duration,
-) (<-chan *MessageBody, error) {
+) (_ <-chan *MessageBody, err error) {
 
 	verifPoint("send.beforeInstanceLock")
 	instance = s.lockCurrentInstance(instance)
@@ -1139,6 +1139,14 @@ func (s *SecureChannel) sendAsyncWithTimeout(
 
 		s.handlers[reqID] = resp
 		s.handlersMu.Unlock()
+
+		// a request that is not sent completely gets no response:
+		// do not leave its handler behind
+		defer func() {
+			if err != nil {
+				s.popHandler(reqID)
+			}
+		}()
 	}
 
 	chunks, err := m.EncodeChunks(instance.maxBodySize)
